@@ -1,4 +1,156 @@
-//! C06 — not built yet.
+//! C06 — graph optimisation preserves meaning and interface.
+//! Structural tie of Model/Opt.v (the four passes and their composition) with optimize_context,
+//! plus the native semantic/interface oracle on the real optimizer output.
+use crate::coqfmt::*;
+use crate::export::*;
+use crate::gen::*;
 use crate::out::Out;
-pub const HEADER: &str = "From CC Require Import Base.Prelude.";
-pub fn run(_tier: &str, _seed: u64, _out: &mut Out) {}
+use crate::progen::*;
+use crate::rng::Rng;
+use ciphercore_base::data_types::*;
+use ciphercore_base::data_values::Value;
+use ciphercore_base::evaluators::simple_evaluator::SimpleEvaluator;
+use ciphercore_base::evaluators::Evaluator;
+use ciphercore_base::graphs::*;
+use ciphercore_base::optimizer::optimize::optimize_context;
+use serde_json::json;
+
+pub const HEADER: &str = "From CC Require Import Base.Prelude Base.Scalar Base.Ty Base.Shape Graph.Value Graph.IR Graph.Eval Model.Opt.";
+
+pub const OPT_OPS: [&str; 40] = [
+    "add", "sub", "mul", "mixed", "sum", "get", "getslice", "reshape", "nop", "stack", "concat",
+    "constant", "constant", "constant", "zeros", "ones", "a2b", "a2b", "b2a", "b2a", "tuple", "tuple", "named", "vector", "vector",
+    "tupleget", "tupleget", "namedget", "namedget", "vectorget", "vectorget", "vectorget", "zip", "zip", "a2v", "a2v", "v2a",
+    "dup", "dup", "annot",
+];
+
+pub fn map_coq(old: &Graph, m: &ciphercore_base::custom_ops::ContextMappings) -> String {
+    let items: Vec<String> = old
+        .get_nodes()
+        .iter()
+        .map(|n| if m.contains_node(n) { format!("Some {}", m.get_node(n).get_id()) } else { "None".into() })
+        .collect();
+    format!("[{}]", items.join("; "))
+}
+
+/// is this op's value taken from randomness / outside (must be replayed through the mapping)
+fn randomizing(op: &Operation) -> bool {
+    matches!(op, Operation::Random(_) | Operation::RandomPermutation(_) | Operation::CuckooToPermutation | Operation::DecomposeSwitchingMap(_))
+}
+
+/// Native oracle of the property on one (program, optimised program, mapping, inputs).
+pub fn oracle(p_g: &Graph, new_g: &Graph, m: &ciphercore_base::custom_ops::ContextMappings, inputs: &[Value], rng: &mut Rng, out: &mut Out, desc: &serde_json::Value) {
+    let mut seed = [0u8; 16];
+    for b in seed.iter_mut() { *b = rng.next() as u8; }
+    let old_vals = eval_all(p_g, inputs, seed);
+    // reverse map new -> some old node (for replaying randomness)
+    let mut rev: std::collections::HashMap<u64, u64> = std::collections::HashMap::new();
+    for n in p_g.get_nodes() { if m.contains_node(&n) { rev.entry(m.get_node(&n).get_id()).or_insert(n.get_id()); } }
+    // evaluate the new graph with replayed randomness
+    let mut ev = SimpleEvaluator::new(Some(seed)).unwrap();
+    let _ = ev.preprocess(&new_g.get_context());
+    let mut new_vals: Vec<Outcome<Value>> = vec![];
+    let mut input_id = 0;
+    for node in new_g.get_nodes() {
+        let mut deps = vec![]; let mut ok = true;
+        for d in node.get_node_dependencies() { match &new_vals[d.get_id() as usize] { Outcome::Ok(v) => deps.push(v.clone()), _ => ok = false } }
+        if !ok { new_vals.push(Outcome::Err); continue; }
+        let op = node.get_operation();
+        let r = if op.is_input() { let v = inputs[input_id].clone(); input_id += 1; Outcome::Ok(v) }
+        else if randomizing(&op) { match rev.get(&node.get_id()) { Some(o) => old_vals[*o as usize].clone(), None => { out.violation("random-node-without-preimage", desc.clone(), format!("new node {} draws randomness but no old node maps to it", node.get_id())); Outcome::Err } } }
+        else { let n2 = node.clone(); observe(|| ev.evaluate_node(n2, deps)) };
+        new_vals.push(r);
+    }
+    // 1. mapped nodes compute the same value
+    for n in p_g.get_nodes() {
+        if !m.contains_node(&n) { continue; }
+        let j = m.get_node(&n).get_id() as usize;
+        match (&old_vals[n.get_id() as usize], &new_vals[j]) {
+            (Outcome::Ok(a), Outcome::Ok(b)) => { if a != b { out.violation("mapped-node-value-differs", desc.clone(), format!("old node {} ({}) -> new node {}: values differ", n.get_id(), n.get_operation(), j)); return; } else { out.oracle_ok(); } }
+            (Outcome::Ok(_), other) => { out.violation("optimised-graph-fails", desc.clone(), format!("old node {} evaluates, new node {} gives {}", n.get_id(), j, other.tag())); return; }
+            _ => {}
+        }
+    }
+    // 2. inputs kept in order with type and name
+    let ins_old: Vec<(Type, Option<String>)> = p_g.get_nodes().iter().filter(|n| n.get_operation().is_input()).map(|n| (n.get_type().unwrap(), n.get_name().unwrap())).collect();
+    let ins_new: Vec<(Type, Option<String>)> = new_g.get_nodes().iter().filter(|n| n.get_operation().is_input()).map(|n| (n.get_type().unwrap(), n.get_name().unwrap())).collect();
+    if ins_old != ins_new { out.violation("inputs-changed", desc.clone(), format!("{:?} vs {:?}", ins_old.len(), ins_new.len())); } else { out.oracle_ok(); }
+    // 3. Send markers of everything the (optimised) output still depends on are kept, on the image
+    let outn = new_g.get_output_node().unwrap();
+    let mut live = std::collections::HashSet::new(); live.insert(outn.get_id());
+    for n in new_g.get_nodes().iter().rev() { if live.contains(&n.get_id()) { for d in n.get_node_dependencies() { live.insert(d.get_id()); } } }
+    for n in p_g.get_nodes() {
+        if !m.contains_node(&n) { continue; }
+        let nn = m.get_node(&n);
+        if !live.contains(&nn.get_id()) { continue; }
+        for a in n.get_annotations().unwrap() {
+            if let NodeAnnotation::Send(_, _) = a {
+                if !nn.get_annotations().unwrap().contains(&a) { out.violation("send-marker-lost", desc.clone(), format!("old node {} has {:?}, its live image {} does not", n.get_id(), a, nn.get_id())); } else { out.oracle_ok(); }
+            }
+        }
+    }
+    // 4. recorded types are the ones type inference re-derives: reload and compare
+    let ctx = new_g.get_context();
+    match serde_json::to_string(&ctx) {
+        Ok(s) => match observe(|| serde_json::from_str::<Context>(&s).map_err(|e| ciphercore_base::errors::Error::from(anyhow_like(e)))) {
+            Outcome::Ok(c2) => {
+                let g2 = c2.get_main_graph().unwrap();
+                for (a, b) in new_g.get_nodes().iter().zip(g2.get_nodes().iter()) {
+                    if a.get_type().unwrap() != b.get_type().unwrap() { out.violation("reloaded-type-differs", desc.clone(), format!("node {}: stored {} vs re-inferred {}", a.get_id(), a.get_type().unwrap(), b.get_type().unwrap())); break; }
+                }
+                out.oracle_ok();
+            }
+            _ => out.violation("optimised-context-does-not-reload", desc.clone(), "serde round trip of the optimised context fails".into()),
+        },
+        Err(_) => out.violation("optimised-context-does-not-serialize", desc.clone(), "to_string failed".into()),
+    }
+}
+fn anyhow_like(e: serde_json::Error) -> std::io::Error { std::io::Error::new(std::io::ErrorKind::Other, e.to_string()) }
+
+pub fn run(tier: &str, seed: u64, out: &mut Out) {
+    let mut rng = Rng::new(seed ^ 0xC06);
+    let n = match tier { "thorough" => 1500, "search" => 3000, _ => 220 };
+    for i in 0..n {
+        let st = *rng.pick(&ALL_ST);
+        let with_random = i % 4 == 3;
+        let mut ops = OPT_OPS.to_vec();
+        if with_random { ops.extend_from_slice(&["random", "prf", "prf", "dup"]); }
+        let cfg = GenCfg { n_inputs: 1 + rng.below(3) as usize, n_ops: 4 + rng.below(14) as usize, scalar_types: vec![st, st, UINT64, BIT], ops, small: true };
+        let p = gen_program(&mut rng, &cfg);
+        let ops_desc: Vec<String> = p.g.get_nodes().iter().map(|n| op_name(&n.get_operation())).collect();
+        for o in ops_desc.iter() { out.stat(&format!("op:{}", o)); }
+        let desc = json!({"ops": ops_desc, "input_types": p.input_types.iter().map(|t| format!("{}", t)).collect::<Vec<_>>(), "index": i});
+        let ctx = p.ctx.clone();
+        let r = observe(|| optimize_context(&ctx, SimpleEvaluator::new(None)?));
+        out.stat(&format!("optimize:{}", r.tag()));
+        let lhs = format!("optimize_graph {} {}", nodes_coq(&p.g), match p.g.get_output_node() { Ok(n) => format!("(Some {})", n.get_id()), Err(_) => "None".into() });
+        let rhs = match &r {
+            Outcome::Ok(mc) => {
+                let ng = mc.get_context().get_main_graph().unwrap();
+                let removed = p.g.get_nodes().len() as i64 - ng.get_nodes().len() as i64;
+                out.stat(if removed > 0 { "rewritten:yes" } else { "rewritten:no" });
+                format!("(Ok (mkPassOut {} {} {}))", nodes_coq(&ng), map_coq(&p.g, &mc.mappings), match ng.get_output_node() { Ok(n) => format!("(Some {})", n.get_id()), Err(_) => "None".into() })
+            }
+            Outcome::Err => "Err".into(),
+            Outcome::Panic => "Panic".into(),
+        };
+        let nontrivial = match &r { Outcome::Ok(mc) => mc.get_context().get_main_graph().unwrap().get_nodes().len() != p.g.get_nodes().len(), _ => true };
+        out.case("optimize_graph", lhs, rhs, desc.clone(), nontrivial);
+        match &r {
+            Outcome::Ok(mc) => {
+                let ng = mc.get_context().get_main_graph().unwrap();
+                for _ in 0..2 {
+                    let inputs: Vec<Value> = p.input_types.iter().map(|t| gen_value(t, &mut rng)).collect();
+                    oracle(&p.g, &ng, &mc.mappings, &inputs, &mut rng, out, &desc);
+                }
+            }
+            Outcome::Panic => out.violation("optimizer-panics", desc.clone(), "optimize_context panicked on a well-typed inlined context".into()),
+            Outcome::Err => {
+                // an Err is legitimate only if evaluation of the original also fails for the folded constants
+                let inputs: Vec<Value> = p.input_types.iter().map(|t| gen_value(t, &mut rng)).collect();
+                let vals = eval_all(&p.g, &inputs, [7u8; 16]);
+                if vals.iter().all(|v| matches!(v, Outcome::Ok(_))) { out.violation("optimizer-rejects-evaluable-graph", desc.clone(), "optimize_context returned Err but the graph evaluates".into()); } else { out.oracle_ok(); }
+            }
+        }
+    }
+}
